@@ -1,12 +1,29 @@
-import sys, json
+"""dev helper: python3 analysis/run_dev.py [--mut <selftest id>] [--view inl] [-v] [RULE ...]"""
+import sys, json, os, shutil
 sys.path.insert(0, '/verif')
 from analysis import facts as F, core
 from analysis import rules  # noqa
-f = F.load('/verif/.cache/facts-default.json')
+args = sys.argv[1:]
+path = '/verif/.cache/facts-default.json'
+if '--mut' in args:
+    i = args.index('--mut'); mid = args[i + 1]; del args[i:i + 2]
+    from analysis import selftest, extract
+    ms = {m['id']: m for m in selftest.load_mutants()}
+    tmp, why = selftest.make_variant(ms[mid])
+    fd = extract.extract_variant(tmp, extract.rustc_cmdline('default'))
+    shutil.rmtree(tmp)
+    path = '/verif/.cache/variant.json'
+    json.dump(fd, open(path, 'w'))
+if '--facts' in args:
+    i = args.index('--facts'); path = args[i + 1]; del args[i:i + 2]
+if '--view' in args:
+    i = args.index('--view'); core.VIEWS[:] = [args[i + 1]]; del args[i:i + 2]
+f = F.load(path)
 ctx = core.Ctx(f)
-only = set(sys.argv[1:]) or None
+verbose = '-v' in args
+only = set(a for a in args if not a.startswith('-')) or None
 core.run_rules(ctx, only=only)
 for r in ctx.results:
     print('%-9s %-14s %-28s %s:%s  %s' % (r.status.upper(), r.rule, r.instance, r.file, r.line, r.msg))
-    if '-v' in sys.argv or r.status != 'ok':
+    if verbose or r.status != 'ok':
         print('          ', json.dumps(r.details)[:600])
